@@ -355,7 +355,10 @@ func checkC09Read(c caseC09, rec *ev.Rec) *ev.Failure {
 	L := len(b.Stream)
 	for k := 0; k <= L; k++ {
 		for _, with := range []bool{false, true} {
-			if with && k == 0 {
+			if with && (k == 0 || k == L) {
+				// k == L with data: the complete file has been delivered
+				// (io.Reader may return the final bytes together with an
+				// error); a reader that needs nothing more never asks again.
 				continue
 			}
 			rec.Eval(1)
